@@ -16,9 +16,7 @@
 (* index abs(t)" at every exit, or a member that declares t at offset k    *)
 (* excludes it for "the transaction at offset k" at every exit.            *)
 (***************************************************************************)
-EXTENDS Integers, Sequences, FiniteSets, TLC
-
-SeqToSet(sq) == { sq[i] : i \in 1..Len(sq) }
+EXTENDS Teal, TLC
 
 DetectorNames == << "rekey-to", "can-close-account", "can-close-asset", "missing-fee-check", "is-updatable",
                     "is-deletable", "unprotected-updatable", "unprotected-deletable" >>
